@@ -632,6 +632,11 @@ func (s *Store) resolveWritePath(name string) (string, error) {
 		if strings.HasPrefix(rel, "../") || rel == ".." {
 			return "", ErrPathTraversalDisallowed
 		}
+		// the path must not leave the working directory through symbolic links
+		// either, e.g. links created by a previously extracted archive
+		if err := ensureResolvedInside(base, target); err != nil {
+			return "", err
+		}
 	}
 	if s.DisableOverwrite {
 		if _, err := os.Stat(path); err == nil {
@@ -641,6 +646,46 @@ func (s *Store) resolveWritePath(name string) (string, error) {
 		}
 	}
 	return path, nil
+}
+
+// ensureResolvedInside reports ErrPathTraversalDisallowed if target, with the
+// symbolic links on the existing part of its path resolved, is outside of base.
+func ensureResolvedInside(base, target string) error {
+	realBase, err := filepath.EvalSymlinks(base)
+	if err != nil {
+		if os.IsNotExist(err) {
+			// nothing exists yet, so there is no link to follow
+			return nil
+		}
+		return err
+	}
+	// resolve the deepest existing ancestor of target (or target itself)
+	for path := target; ; {
+		real, err := filepath.EvalSymlinks(path)
+		if err == nil {
+			rel, err := filepath.Rel(realBase, real)
+			if err != nil {
+				return ErrPathTraversalDisallowed
+			}
+			rel = filepath.ToSlash(rel)
+			if strings.HasPrefix(rel, "../") || rel == ".." {
+				return ErrPathTraversalDisallowed
+			}
+			return nil
+		}
+		if !os.IsNotExist(err) {
+			return err
+		}
+		if _, lerr := os.Lstat(path); lerr == nil {
+			// a dangling link: what it points to would be created through it
+			return ErrPathTraversalDisallowed
+		}
+		parent := filepath.Dir(path)
+		if parent == path {
+			return nil
+		}
+		path = parent
+	}
 }
 
 // status returns the nameStatus for the given name.
